@@ -176,7 +176,7 @@ ROUND5 = {
     "C09": " Command SetKeyWithLineFeed: a permitted write whose *key* carries a line feed followed by a command word (`set ka\\ncreate-db tok`): the set of databases of every node must be unchanged.",
     "C10": " In a quarter of the cases the attacker's session works on an arbiter database of its own with a registered arbiter and a conflict already pending on `k` (the conflict-queue paths, e.g. version + queue length).",
     "C14": " In half of the fail-over clusters a client writes on the youngest node 1 ms to (election timeout + 400 ms) after the primary was killed, inside the election window: that node may drop or forward the operation but must not send it to more than one node.",
-    "C16": " One history in five with two or more databases begins with the motif: the first snapshot of a database dies after 1-4 disk calls, in the next life another database is created first, then the same name again, both are snapshotted, restart.",
+    "C16": " One history in five with two or more databases begins with the motif: the first snapshot of a database dies after 1-12 disk calls, in the next life another database is created first, then the same name again, both are snapshotted, restart.",
 }
 for k, v in ROUND5.items():
     CLAIMED[k]["text"] = CLAIMED[k]["text"] + v
